@@ -167,12 +167,14 @@ pub fn run(ctx: &Ctx, replay: Option<&Value>) -> i32 {
     let n = if thorough { 5 } else { 4 };
     textspace::token_strings(n, &f);
     ctx.set("token_string_max_len", json!(n));
+    // (b') operand shapes
+    textspace::operand_strings(if thorough { 6 } else { 5 }, &f);
     ctx.set("t_tokens_s", json!(ctx.wall()));
     // (c)
     textspace::splices(&ex, if thorough { 2 } else { 12 }, &f);
     ctx.finish(
         "exploration",
-        "every single-character edit (delete; insert/replace with 104 characters on the synthetic corpus, with 26 characters on the example files; quick: smallest example only) of a corpus with one rendering of every grammar production and of the repository's example sources; all token strings of length <= n over 26 tokens; all prefix+suffix splices of the examples at line boundaries. Each text is parsed by the real parser; non-trivial = distinct text accepted without diagnostics (the only texts on which the oracle can fail)",
+        "every single-character edit (delete; insert/replace with 104 characters on the synthetic corpus, with 26 characters on the example files; quick: smallest example only) of a corpus with one rendering of every grammar production and of the repository's example sources; all token strings of length <= n over 26 tokens; `lda` followed by every string of up to 5 (thorough 6) operand tokens (parentheses, index suffixes, values, comma, blank, comment); all prefix+suffix splices of the examples at line boundaries. Each text is parsed by the real parser; non-trivial = distinct text accepted without diagnostics (the only texts on which the oracle can fail)",
         true,
         &[
             "texts are single edits of a fixed corpus and short token strings, not all byte strings",
